@@ -142,7 +142,7 @@ partial def RTerm.toSTerm : RTerm → Option STerm
   | .atom s => some (.atom s)
   | .num s => s.toNat?.map .num
   | .var v => some (.var v)
-  | .fn n isNum args => if isNum then none else (args.mapM RTerm.toSTerm).map (.fn n)
+  | .fn n isNum args => (args.mapM RTerm.toSTerm).map (if isNum then .numfn n else .fn n)
   | .list items => (items.mapM RTerm.toSTerm).map .list
   | .lpair h t => do pure (.lpair (← h.toSTerm) (← t.toSTerm))
   | .slash => none
@@ -262,9 +262,9 @@ def bodyOfRaw : RBody → Except FrontErr Body
   | .goal .cut => .ok .cut
   | .goal (.term t) => do
       let (n, isNum, args) ← goalOfTerm t
-      if isNum then .error .crash else
       match args.mapM RTerm.toSTerm with
-      | some as => .ok (.call n as)
+      -- a goal named by a numeral: code cannot be built for it (all of it is one poisoned argument)
+      | some as => .ok (if isNum then .call n [.numfn n as] else .call n as)
       | none => .error .crash
   | .conj a b => do pure (.conj (← bodyOfRaw a) (← bodyOfRaw b))
   | .disj a b => do pure (.disj (← bodyOfRaw a) (← bodyOfRaw b))
